@@ -251,10 +251,15 @@ fn gen_config(r: &mut Rng) -> SimConfig {
             ch.founders = vec!["ann".into()];
         }
         if r.chance(1, 3) {
-            ch.operators = vec!["bob".into()];
+            // (the same nickname may be listed in several rank lists, as in config-example.toml: every listed rank is given)
+            ch.operators = if r.chance(1, 2) { vec!["bob".into()] } else { vec!["bob".into(), "ann".into()] };
         }
         if r.chance(1, 3) {
-            ch.voices = vec!["cat".into()];
+            ch.voices = match r.below(3) {
+                0 => vec!["cat".into()],
+                1 => vec!["cat".into(), "bob".into()],
+                _ => vec!["ann".into(), "bob".into(), "cat".into()],
+            };
         }
         if r.chance(1, 4) {
             ch.half_operators = vec!["dan".into()];
